@@ -16,12 +16,14 @@ typedef struct {
 	int mo;               /* memory-order argument as passed by the code (0 relaxed .. 5 seq_cst) */
 	int size;
 	int ctx;
+	int sw;               /* plain access that was a switch point of its own */
 	int plain_on_atomic;  /* plain access to an atomic region, or atomic op on a plain region */
 	long old, arg, res;
 } vrt_ev_t;
 
 void vrt_reset(void);
 void vrt_clear_regions(void);
+/* atomic: bit0 = region holds atomic objects, bit1 = plain accesses to it are switch points */
 void vrt_region(const char *name, void *addr, size_t len, size_t elem, int atomic);
 int vrt_spawn(void (*fn)(void *), void *arg);
 int vrt_step(int c);            /* 1 = parked at its next atomic op, 0 = finished, -1 = cannot run */
